@@ -42,6 +42,7 @@ from vk.smt.ast2z3 import Ref, flat_any
 from vk.smt.sx2z3 import sx2z3
 
 PROP = "C22"
+LOOP_INDEX_NAMES = ("i", "j")
 ATOMS = {  # name -> (text, allowed)
     "time": ("time", False), "state": ("x", False), "der": ("der(x)", False), "alg": ("a", False),
     "input": ("u", False), "fixed_input": ("uf", True), "param": ("p", True), "const": ("c", True),
@@ -213,6 +214,110 @@ def sequence_items(tier):
     return items
 
 
+# ---- family "shape": array-valued delayed expressions (vector, row/column matrix, true matrix) -----------
+SHAPES = {"vec3": "[3]", "row1x3": "[1,3]", "col3x1": "[3,1]", "mat2x3": "[2,3]", "mat3x2": "[3,2]", "mat2x2": "[2,2]"}
+SHAPE_EXPRS = {"var": "x", "scaled": "2 * x", "sum": "x + p * g", "alg": "g"}
+SHAPE_DURS = {"param": ("p", True), "fixed_input+const": ("uf + c", True), "literal": ("2.5", True), "time": ("time", False), "state": ("s", False)}
+SHAPE_OPTSETS = [("default", {}), ("expand", {"expand_vectors": True}), ("expand+aliases", {"expand_vectors": True, "detect_aliases": True}),
+                 ("aliases", {"detect_aliases": True}), ("expand+consts", {"expand_vectors": True, "replace_constant_values": True})]
+
+
+def shape_items(tier):
+    """One array-valued y = delay(<array expression>, dur) next to a scalar delay declared before or after it.  With
+    expand_vectors every element gets its own delay state '_pymoca_delay_N[r,c]', which must be paired with element
+    [r,c] of the delayed expression of delay() call N and with that call's duration."""
+    items = []
+    thorough = tier == "thorough"
+    for (sid, dims), (eid, e), (did, (dur, ok)), (on, o), order in itertools.product(
+            SHAPES.items(), SHAPE_EXPRS.items(), SHAPE_DURS.items(), SHAPE_OPTSETS, ("scalar-first", "array-first")):
+        if not thorough:
+            # quick: every shape x 2 expressions x default/expand x 2 orders with a parameter duration; the other
+            # expressions, durations and option sets on the true matrices only
+            main = eid in ("var", "scaled") and did == "param" and on in ("default", "expand")
+            side = sid in ("mat2x3", "mat3x2") and order == "scalar-first" and (
+                (did == "param" and on in ("default", "expand", "expand+aliases")) or (eid == "scaled" and on == "expand"))
+            if not (main or side):
+                continue
+        d1 = f"  ys = delay(s + c, 2 * p);\n"
+        d2 = f"  y = delay({e}, {dur});\n"
+        text = (f"model M\n  Real x{dims}(each start = 1);\n  Real g{dims};\n  Real y{dims};\n  Real s(start = 1);\n  Real ys;\n"
+                "  input Real uf(fixed = true);\n  parameter Real p = 2;\n  constant Real c = 3;\nequation\n"
+                "  der(x) = -p * x;\n  der(s) = -s;\n  g = 3 * x;\n" + (d1 + d2 if order == "scalar-first" else d2 + d1) + "end M;\n")
+        items.append((f"shape:{sid}|{eid}|dur={did}|{order}|{on}", text, ok, o, 1))
+    return items
+
+
+# ---- family "loopidx": delays in a for-loop that use one array through SEVERAL index expressions -------------
+LOOP_HEAD = """model M
+  Real x[4](each start = 1);
+  Real z[4];
+  Real y[4], r[4];
+  input Real uf(fixed = true);
+  input Real un[4];
+  input Real ufx[4](each fixed = true);
+  parameter Real p = 2;
+  parameter Real tau[4] = {1, 2, 3, 4};
+  constant Real c = 3;
+  constant Real cs[4] = {1, 2, 3, 4};
+equation
+  for i in 1:4 loop
+    der(x[i]) = -p * x[i] + un[i] + ufx[i];
+    z[i] = i * x[i] + c;
+  end for;
+"""
+LOOPIDX_EXPRS = {  # id -> (lo, hi, delayed expression)
+    "back-diff": (2, 4, "x[i] - x[i-1]"), "fwd-diff": (1, 3, "x[i+1] - x[i]"), "mirror": (1, 4, "x[i] * x[5-i]"),
+    "stencil3": (2, 3, "x[i-1] + 2 * x[i] + 3 * x[i+1]"), "two-arrays-shifted": (2, 4, "x[i] - z[i-1]"),
+    "two-arrays-same": (1, 4, "x[i] + z[i]"), "same-ref-twice": (1, 4, "x[i] * x[i]"), "strided": (1, 2, "x[2*i] - x[i]"),
+    "loopvar-factor": (1, 4, "i * x[i] - x[i] / 2"), "alg-shifted": (1, 3, "z[i+1] / 2 - z[i]"), "shift-only": (2, 4, "3 * x[i-1]"),
+}
+LOOPIDX_SECOND = {"none": None, "same-array-plain-index": "3 * x[i]", "shifted-again": "x[i-1] * 2"}
+LOOPIDX_OPTSETS = [("default", {}), ("expand", {"expand_vectors": True}), ("serial", {"unroll_loops": False}), ("aliases", {"detect_aliases": True})]
+
+
+def _loop_model(lo, hi, e, dur, e2=None, dur2="p"):
+    pre = "".join(f"  y[{k}] = 0;\n  r[{k}] = 0;\n" for k in range(1, 5) if not lo <= k <= hi)
+    second = f"    r[i] = delay({e2}, {dur2});\n" if e2 else "    r[i] = y[i] + 1;\n"
+    return LOOP_HEAD + pre + f"  for i in {lo}:{hi} loop\n    y[i] = delay({e}, {dur});\n{second}  end for;\nend M;\n"
+
+
+def loopidx_items(tier):
+    items = []
+    thorough = tier == "thorough"
+    for (eid, (lo, hi, e)), (sid, e2), (on, o), (did, dur) in itertools.product(
+            LOOPIDX_EXPRS.items(), LOOPIDX_SECOND.items(), LOOPIDX_OPTSETS, (("param", "p"), ("fixed_input+const", "uf + c"))):
+        if e2 and "i-1" in e2 and lo < 2:
+            continue
+        if not thorough and not ((sid == "none" and did == "param" and on in ("default", "expand"))
+                                 or (sid != "none" and did == "fixed_input+const" and on == "default")):
+            continue
+        items.append((f"loopidx:{eid}|second={sid}|dur={did}|{on}", _loop_model(lo, hi, e, dur, e2), True, o, 1))
+    return items
+
+
+# ---- family "loopdur": loop delays whose DURATION refers to the loop index / a loop-indexed variable ----------
+LOOPDUR = {  # id -> (duration, allowed)
+    "param-array": ("tau[i]", True), "loopvar*param": ("i * p", True), "const-array": ("cs[i]", True), "fixed-input-array": ("ufx[i]", True),
+    "param-array-shifted+const": ("tau[i-1] + c", True),
+    "alg-array": ("z[i]", False), "state-array": ("x[i]", False), "state-array-shifted": ("x[i-1]", False), "input-array": ("un[i]", False),
+    "param-array+alg-array": ("tau[i] + z[i]", False),
+    # controls: fixed elements / whole-model symbols inside a loop (not index dependent)
+    "param-element": ("tau[2]", True), "alg-element": ("z[2]", False), "param": ("p", True), "time": ("time", False),
+}
+LOOPDUR_ALLOWED_CLASS = "loopdur:index-dependent-allowed"
+LOOPDUR_DISALLOWED_CLASS = "loopdur:index-dependent-disallowed"
+
+
+def loopdur_items(tier):
+    items = []
+    for (did, (dur, ok)), (on, o) in itertools.product(LOOPDUR.items(), LOOPIDX_OPTSETS if tier == "thorough" else LOOPIDX_OPTSETS[:2]):
+        lo = 2 if "i-1" in dur else 1
+        indexed = "[i" in dur or "i *" in dur
+        cls = (LOOPDUR_ALLOWED_CLASS if ok else LOOPDUR_DISALLOWED_CLASS) if indexed else None
+        items.append((f"loopdur:{did}|{on}", _loop_model(lo, 4, "x[i] + z[i]", dur), ok, o, 1, cls))
+    return items
+
+
 class DelayCollector:
     """Reference: (expression values, duration value) of every delay() in generator visiting order."""
 
@@ -230,14 +335,14 @@ class DelayCollector:
                 for side in (e.left, e.right):
                     self._find(side, nodes)
             for node in nodes:
-                vals, dur = [], None
+                vals, durs = [], []
                 for k in self.ref.loop_values(eq.indices):
                     self.ref.loop.update(k)
                     vals.append(self.ref.ev(node.operands[0]))
-                    dur = self.ref.ev(node.operands[1])
+                    durs.append(self.ref.ev(node.operands[1]))       # the duration of THIS iteration
                 for ix in eq.indices:
                     self.ref.loop.pop(ix.name, None)
-                self.out.append((vals, dur))
+                self.out.append((vals, durs))
         elif isinstance(eq, ast.IfEquation):
             for blk in eq.blocks:
                 for e in blk:
@@ -261,7 +366,7 @@ class DelayCollector:
         acc = []
         self._find(node, acc)
         for n in acc:
-            self.out.append((flat_any(self.ref.ev(n.operands[0])), self.ref.ev(n.operands[1])))
+            self.out.append((self.ref.ev(n.operands[0]), self.ref.ev(n.operands[1])))   # value keeps its (nested list) shape
 
 
 def private_parse_cache():
@@ -322,7 +427,8 @@ def symbol_kind(flat, name, opts):
     """'<category>:<enabled pass that removes such a symbol from the model>' of a symbol left free in the delay arguments."""
     sym = flat.classes["M"].symbols.get(name)
     if sym is None:
-        return "unknown"
+        # 'tau[i]' / 'i': the placeholder symbols of a for-loop body (loop index, loop-indexed reference)
+        return "loop-placeholder" if ("[" in name or name in LOOP_INDEX_NAMES) else "unknown"
     lit = isinstance(sym.value, ast.Primary)
     if "parameter" in sym.prefixes:
         cand = ["replace_parameter_values"] if lit else ["replace_parameter_expressions"]
@@ -335,35 +441,121 @@ def symbol_kind(flat, name, opts):
     return kind + ":" + next((c for c in cand if opts.get(c)), "no-pass")
 
 
-def check(col, case, text, allowed, opts, ncalls=1):
+def check(col, case, text, allowed, opts, ncalls=1, cls=None):
+    """cls: stable class id used instead of the case id for violations of a whole input class (known findings)."""
     outcomes = run_transfer(text, opts, ncalls)
     for i, r in enumerate(outcomes):
         ccase = case if i == 0 else f"{case}|call{i + 1}"
-        if isinstance(r, ValueError):
+        if isinstance(r, ValueError) and "Delay durations" in str(r):
             accepted = False
-            if "Delay durations" not in str(r):
-                col.harness_error(f"{ccase}: unexpected ValueError {r}")
-                return
+        elif isinstance(r, (sqlite3.Error, OSError)):
+            col.harness_error(f"{ccase}: environment trouble in transfer_model: {type(r).__name__}: {str(r)[-300:]}")
+            return
+        elif isinstance(r, Exception) and allowed:
+            # every enumerated model was probed to compile on the unchanged tree, and this one has an allowed duration:
+            # "accepts those whose durations depend only on constants, parameters and fixed inputs" - a crash is not acceptance
+            col.bump("acceptance_decisions")
+            import traceback as tb
+            where = tb.extract_tb(r.__traceback__)[-1]
+            col.violation(f"{cls or ccase}:acceptance:raises:{type(r).__name__}",
+                          f"transfer_model raises {type(r).__name__} ({str(r)[-120:]}) in {where.name} for a model whose delay duration is allowed"
+                          + (f" (call #{i + 1} on the same folder)" if i else "") + f" (first seen: {ccase})",
+                          {"model_text": text, "options": opts, "calls": i + 1})
+            return
         elif isinstance(r, Exception):
             col.append("unsupported", f"{ccase}: {type(r).__name__}: {str(r)[-80:]}")
             col.bump("unsupported_models")
-            # every enumerated model was probed to compile: environment trouble (sqlite) or a model that
-            # stopped compiling is neither a pass nor a C22 violation
+            # a model with a disallowed duration stopped compiling for another reason: neither a proper rejection
+            # nor an acceptance - the encoding no longer matches this source
             col.harness_error(f"{ccase}: transfer_model raised {type(r).__name__}: {str(r)[-300:]}")
             return
         else:
             accepted = True
         col.bump("acceptance_decisions")
         if accepted != allowed:
-            col.violation(f"{ccase}:acceptance", f"transfer_model {'accepts' if accepted else 'rejects'} a model whose delay duration is "
-                          f"{'allowed' if allowed else 'not allowed'}" + (f" (call #{i + 1} on the same folder)" if i else ""),
+            col.violation(f"{cls or ccase}:acceptance", f"transfer_model {'accepts' if accepted else 'rejects'} a model whose delay duration is "
+                          f"{'allowed' if allowed else 'not allowed'}" + (f" (call #{i + 1} on the same folder)" if i else "") + (f" (first seen: {ccase})" if cls else ""),
                           {"model_text": text, "options": opts, "calls": i + 1})
             return
         if accepted:
-            verify_arguments(col, ccase, text, r, opts)
+            verify_arguments(col, ccase, text, r, opts, cls)
 
 
-def verify_arguments(col, case, text, m, opts):
+def ref_grid(vals):
+    """{(row, col): term} and (rows, cols) of a reference value: scalar, vector (column) or list of rows."""
+    if not isinstance(vals, list):
+        return {(0, 0): vals}, (1, 1)
+    if vals and all(isinstance(r, list) for r in vals):
+        if any(isinstance(e, list) for r in vals for e in r) or len({len(r) for r in vals}) != 1:
+            raise EncodingGap("delayed expression with more than two dimensions / ragged rows")
+        return {(i, j): e for i, r in enumerate(vals) for j, e in enumerate(r)}, (len(vals), len(vals[0]))
+    if any(isinstance(r, list) for r in vals):
+        raise EncodingGap("ragged delayed expression")
+    return {(i, 0): e for i, e in enumerate(vals)}, (len(vals), 1)
+
+
+DELAY_NAME = re.compile(r"^_pymoca_delay_(\d+)(?:\[(\d+)(?:,(\d+))?\])?$")
+
+
+def pair_by_name(m, zo, calls):
+    """Pair every delay state of the model, BY ITS NAME '_pymoca_delay_N' / '_pymoca_delay_N[r]' / '..N[r,c]', with element
+    [r,c] of the delayed expression of the N-th delay() call of the source (and that call's duration).  An unsubscripted
+    delay state carries the whole value of the call in CasADi's column-major order.
+    Returns (pairs, None) or (None, problem); pair = (impl expr, impl duration, output index, element, ref expr, ref duration, label)."""
+    pairs, covered = [], {}
+    if len(zo) != 2 * len(m.delay_states):
+        return None, f"{len(zo)} outputs for {len(m.delay_states)} delay states"
+    grids = []
+    for vals, dur in calls:
+        g, shape = ref_grid(vals)
+        dg = ref_grid(dur)[0] if isinstance(dur, list) else None
+        grids.append((g, shape, dg, dur))
+    for k, name in enumerate(m.delay_states):
+        mo = DELAY_NAME.match(name)
+        if not mo:
+            return None, f"unexpected delay state name {name!r}"
+        n = int(mo.group(1))
+        if n >= len(grids):
+            return None, f"delay state {name!r} but the source has {len(grids)} delay() calls"
+        grid, shape, dgrid, dur = grids[n]
+        ze, zd = zo[2 * k], zo[2 * k + 1]
+        if len(zd["dense"]) != 1:
+            return None, f"duration of {name!r} has {len(zd['dense'])} elements"
+        if mo.group(2) is None:
+            n1, n2 = ze["shape"]
+            if (n1, n2) == shape:
+                rcs = [(i % n1, i // n1) for i in range(n1 * n2)]
+            elif n1 * n2 == shape[0] * shape[1] and min(n1, n2) == 1 and min(shape) == 1:
+                rcs = [(i, 0) if shape[1] == 1 else (0, i) for i in range(n1 * n2)]      # orientation of a vector is immaterial
+            else:
+                return None, f"{name!r} has shape {(n1, n2)}, the delayed expression {shape}"
+            elems = list(enumerate(rcs))
+        else:
+            r = int(mo.group(2)) - 1
+            c = int(mo.group(3)) - 1 if mo.group(3) else 0
+            rc = (r, c)
+            if rc not in grid and shape[0] == 1 and mo.group(3) is None:
+                rc = (0, r)
+            if rc not in grid and (c, r) in grid and min(shape) == 1:
+                rc = (c, r)
+            if rc not in grid:
+                return None, f"delay state {name!r} but the delayed expression of call {n} has shape {shape}"
+            if len(ze["dense"]) != 1:
+                return None, f"subscripted delay state {name!r} has {len(ze['dense'])} elements"
+            elems = [(0, rc)]
+        for idx, rc in elems:
+            if (n, rc) in covered:
+                return None, f"element {rc} of delay() call {n} is covered by {covered[(n, rc)]!r} and {name!r}"
+            covered[(n, rc)] = name
+            wd = dgrid[(max(rc), 0)] if dgrid is not None else dur
+            pairs.append((ze["dense"][idx], zd["dense"][0], 2 * k, idx, grid[rc], wd, f"{name}@{rc[0] + 1},{rc[1] + 1}"))
+    missing = [(n, rc) for n, (grid, _, _, _) in enumerate(grids) for rc in grid if (n, rc) not in covered]
+    if missing:
+        return None, f"no delay state for elements {missing[:4]} (call, (row, col)) of the source delay() calls"
+    return pairs, None
+
+
+def verify_arguments(col, case, text, m, opts, cls=None):
     """z3: every (expression, duration) output of m.delay_arguments_function equals the source argument."""
     flat = pipeline.flat_reference(text, "M")
     ref = Ref(flat, "M")
@@ -392,54 +584,76 @@ def verify_arguments(col, case, text, m, opts):
     _, zo, div = sx2z3(f, names, ref.div)
     # flatten both sides to scalar (expression element, duration) pairs: expand_vectors turns a
     # vector-valued delay state into one scalar delay state per element
-    impl_pairs = []
-    for i in range(len(zo) // 2):
-        for k, g in enumerate(zo[2 * i]["dense"]):
-            impl_pairs.append((g, zo[2 * i + 1]["dense"][0], 2 * i, k, len(zo[2 * i + 1]["dense"])))
-    ref_pairs = [(v, dur) for vals, dur in dc.out for v in vals]
-    if len(impl_pairs) != len(ref_pairs) or any(p[4] != 1 for p in impl_pairs):
-        col.violation(f"{case}:count", f"{len(impl_pairs)} scalar delay arguments for {len(ref_pairs)} delayed elements", {"model_text": text})
+    calls = dc.out
+    true_matrix = any(min(ref_grid(v)[1]) > 1 for v, _ in calls)
+    todo = []  # (label, impl term, ref term, output index, element)
+    if not true_matrix:
+        # positional pairing: delay arguments come out in source order, elements in order
+        impl_pairs = []
+        for i in range(len(zo) // 2):
+            for k, g in enumerate(zo[2 * i]["dense"]):
+                impl_pairs.append((g, zo[2 * i + 1]["dense"][0], 2 * i, k, len(zo[2 * i + 1]["dense"])))
+        ref_pairs = []
+        for vals, dur in calls:
+            fv = flat_any(vals)
+            ref_pairs += [(v, dur[j] if isinstance(dur, list) else dur) for j, v in enumerate(fv)]
+        if len(impl_pairs) != len(ref_pairs) or any(p[4] != 1 for p in impl_pairs):
+            col.violation(f"{case}:count", f"{len(impl_pairs)} scalar delay arguments for {len(ref_pairs)} delayed elements", {"model_text": text})
+            return
+        for i, ((ge, gd, oi, ok_, _), (we, wd)) in enumerate(zip(impl_pairs, ref_pairs)):
+            todo += [(f"arg{i}:expr", ge, we, oi, ok_), (f"arg{i}:duration", gd, wd, oi + 1, 0)]
+    # pairing by the NAME of the delay state (the input of the DAE that receives the delayed value)
+    named, problem = pair_by_name(m, zo, calls)
+    if problem:
+        col.violation(f"{case}:delay-state-pairing", "delay states do not match the source delay() calls: " + problem, {"model_text": text, "options": opts})
         return
+    for ge, gd, oi, k, we, wd, label in named:
+        todo += [(f"{label}:expr", ge, we, oi, k), (f"{label}:duration", gd, wd, oi + 1, 0)]
+    col.bump("delay_states_paired_by_name", len(named))
     assume = div.nonzero()
     equalities = binding_assumptions(ref, flat, opts)
     for canon, aliases in m.alias_relation:
         for a in aliases:
             equalities.append(z3.Real(a[1:]) == -z3.Real(canon) if a[0] == "-" else z3.Real(a) == z3.Real(canon))
     assume = assume + equalities
-    for i, ((ge, gd, oi, ok_, _), (we, wd)) in enumerate(zip(impl_pairs, ref_pairs)):
-        for which, g, w, o_idx, k in (("expr", ge, we, oi, ok_), ("duration", gd, wd, oi + 1, 0)):
-            col.bump("delay_argument_elements")
-            if g.get_id() == w.get_id():
-                col.count("unsat")
-                continue
-            r, mod = equiv.check(col, assume + [g != w])
-            if r == "sat":
-                pt = equiv.point_from_model(mod, [g, w] + [t for e in equalities for t in e.children()])
-                conf = None
-                # the solver's point satisfies the alias / binding equalities; perturbed points would not
-                for p in ([pt] if equalities else equiv.perturbations(pt, 0)):
-                    try:
-                        gv = modelio.eval_function(f, names, p)[o_idx][k]
-                        wv = equiv.z3eval(w, pipeline._Default(p))
-                    except Exception:
-                        continue
-                    if not equiv.close(gv, wv):
-                        conf = {"point": p, "impl": gv, "ref": wv}
-                        break
-                if conf:
-                    col.violation(f"{case}:arg{i}:{which}", "delay_arguments_function output differs from the source delay() argument", {"model_text": text, "options": opts, "detail": conf})
-                else:
-                    col.note_inconclusive(f"{case}:arg{i}:{which} sat did not replay")
-            elif r == "unknown":
-                col.note_inconclusive(f"{case}:arg{i}:{which} unknown")
+    done = set()
+    for label, g, w, o_idx, k in todo:
+        if (g.get_id(), w.get_id()) in done:
+            continue
+        done.add((g.get_id(), w.get_id()))
+        col.bump("delay_argument_elements")
+        if g.get_id() == w.get_id():
+            col.count("unsat")
+            continue
+        r, mod = equiv.check(col, assume + [g != w])
+        if r == "sat":
+            pt = equiv.point_from_model(mod, [g, w] + [t for e in equalities for t in e.children()])
+            conf = None
+            # the solver's point satisfies the alias / binding equalities; perturbed points would not
+            for p in ([pt] if equalities else equiv.perturbations(pt, 0)):
+                try:
+                    gv = modelio.eval_function(f, names, p)[o_idx][k]
+                    wv = equiv.z3eval(w, pipeline._Default(p))
+                except Exception:
+                    continue
+                if not equiv.close(gv, wv):
+                    conf = {"point": p, "impl": gv, "ref": wv}
+                    break
+            if conf:
+                col.violation(f"{case}:{label}", "delay_arguments_function output differs from the source delay() argument", {"model_text": text, "options": opts, "detail": conf})
+            else:
+                col.note_inconclusive(f"{case}:{label} sat did not replay")
+        elif r == "unknown":
+            col.note_inconclusive(f"{case}:{label} unknown")
     col.bump("programs")
 
 
 def work(item):
-    case, text, allowed, opts, ncalls = item
+    case, text, allowed, opts, ncalls = item[:5]
+    cls = item[5] if len(item) > 5 else None
     col = Collector()
     try:
-        check(col, case, text, allowed, opts, ncalls)
+        check(col, case, text, allowed, opts, ncalls, cls)
         col.sample({"case": case, "allowed": allowed, "options": opts, "calls": ncalls}, 2)
     except EncodingGap as g:
         col.append("encoding_gaps", f"{case}: {g}")
@@ -464,7 +678,8 @@ def main():
                 continue
             items.append((f"dur={k}|loop={int(loop)}|{ek}|{on}", model_text(dur, loop, ek), ok, o, 1))
     n_single = len(items)
-    fam = {"rewrite": rewrite_items(args.tier), "multi": multi_items(args.tier), "sequence": sequence_items(args.tier)}
+    fam = {"rewrite": rewrite_items(args.tier), "multi": multi_items(args.tier), "sequence": sequence_items(args.tier),
+           "shape": shape_items(args.tier), "loopidx": loopidx_items(args.tier), "loopdur": loopdur_items(args.tier)}
     for f in fam.values():
         items += f
     # longest items (three transfer_model calls, codegen compiles) first
